@@ -11,6 +11,7 @@ import asyncio
 import copy
 import hashlib
 import hmac
+import itertools
 import json
 import os
 import random
@@ -29,13 +30,7 @@ GREETING = b"\xff" + b"\x00" * 8 + b"\x7f" + b"\x03" + b"\x00" + b"NULL" + b"\x0
 # ================================================================================================
 # shared helpers (workers)
 def rle(bs):
-    out = []
-    for b in bs:
-        if out and out[-1]["b"] == b:
-            out[-1]["n"] += 1
-        else:
-            out.append({"b": b, "n": 1})
-    return out
+    return [{"b": b, "n": sum(1 for _ in g)} for b, g in itertools.groupby(bytes(bs))]
 
 
 def unrle(r):
@@ -814,9 +809,11 @@ def validate_frames(ctx, recs, label, nproc=8):
     rejects = []
 
     def run(i, chunk):
-        path = os.path.join(ctx.scratch, "zmtp_%s_%d.json" % (label, i))
+        d = os.path.join(ctx.scratch, "zmtp_%s_%d" % (label, i))           # own directory: TLC metadirs of parallel runs
+        os.makedirs(d, exist_ok=True)
+        path = os.path.join(d, "cases.json")
         json.dump(chunk, open(path, "w"))
-        res = tlc.accept_batch("ZmtpTrace", path, ctx.scratch, cfg="ZmtpTrace.cfg")
+        res = tlc.accept_batch("ZmtpTrace", path, d, cfg="ZmtpTrace.cfg")
         if res.distinct != len(chunk) + 1:
             raise MachineryFailure("ZmtpTrace visited %d states for %d cases" % (res.distinct, len(chunk)))
         return res
@@ -831,9 +828,11 @@ def validate_sessions(ctx, cases, label, nproc=8):
     rejects = []
 
     def run(i, chunk):
-        path = os.path.join(ctx.scratch, "kern_%s_%d.json" % (label, i))
+        d = os.path.join(ctx.scratch, "kern_%s_%d" % (label, i))
+        os.makedirs(d, exist_ok=True)
+        path = os.path.join(d, "cases.json")
         json.dump(chunk, open(path, "w"))
-        res = tlc.accept_batch("KernelTrace", path, ctx.scratch, cfg="KernelTrace.cfg")
+        res = tlc.accept_batch("KernelTrace", path, d, cfg="KernelTrace.cfg")
         info = [x for x in res.infos if "cases" in x]
         if not info or info[-1]["cases"] != len(chunk) or info[-1]["accepted"] + len(res.rejects) < len(chunk):
             raise MachineryFailure("KernelTrace verdicts incomplete: %s for %d cases, %d rejects" % (info, len(chunk), len(res.rejects)))
